@@ -267,6 +267,35 @@ static bool lastIsName(const String& s)
   return true;
 }
 
+// the model keeps the working directory and its ancestors: arguments resolving to them are rejected
+static bool hitsCwd(const String& p)
+{
+  char real[4096];
+  if(!realpath(p, real)) return false;
+  char cwdp[1024];
+  snprintf(cwdp, sizeof(cwdp), "%s/s", BASE);
+  size_t n = strlen(real);
+  if(n == 1 && real[0] == '/') return true;
+  return strncmp(cwdp, real, n) == 0 && (cwdp[n] == '/' || cwdp[n] == 0);
+}
+
+static bool purgeOk(const String& s)
+{
+  const char* p = s; size_t n = s.length(), i = 0; bool any = false;
+  if(n && p[0] == '/') return false;
+  while(i < n)
+  {
+    while(i < n && p[i] == '/') ++i;
+    size_t b = i;
+    while(i < n && p[i] != '/') ++i;
+    size_t len = i - b;
+    if(!len) continue;
+    any = true;
+    if((len == 1 && p[b] == '.') || (len == 2 && p[b] == '.' && p[b + 1] == '.')) return false;
+  }
+  return any;
+}
+
 static int cmpHexName(const void* a, const void* b) { return strcmp(*(char* const*)a, *(char* const*)b); }
 
 static void runScript(File& f, char* script)
@@ -299,6 +328,16 @@ static bool fsOp(HxLine& l)
   bool ok = true;
   if(l.ntok < 2 || strncmp(l.tok[0], "fs", 2) != 0) return false;
   if(g_needReset) { fsReset(); g_needReset = false; }
+  if(hxIs(l, "fsabspath", 1))
+  {
+    size_t n = 0; char* raw = hxCStr(l.tok[1], n);
+    String a = File::getAbsolutePath(String(raw, n)); free(raw);
+    const char* t = a; size_t tl = a.length();
+    if(tl >= BASELEN && !strncmp(t, BASE, BASELEN) && (t[BASELEN] == '/' || !t[BASELEN])) { t += BASELEN; tl -= BASELEN; }
+    hxPutHex(t, tl);
+    putSnapshot();
+    return true;
+  }
   String p = xl(l.tok[1], ok);
   if(!ok) return false;
   if(hxIs(l, "fsmkdir", 1)) printf("%d", rawMkdir(p, 0755) == 0 ? 1 : 0);
@@ -330,8 +369,15 @@ static bool fsOp(HxLine& l)
     g_mk_countdown = -1;
     printf("%d fired=%d", r ? 1 : 0, g_mk_fired);
   }
+  else if(hxIs(l, "fspurge", 2))
+  {
+    size_t n0 = 0; char* raw = hxCStr(l.tok[1], n0); String rawp(raw, n0); free(raw);
+    if(!purgeOk(rawp) || hitsCwd(p) || (l.tok[2][0] != '0' && l.tok[2][0] != '1') || l.tok[2][1]) return false;
+    printf("%d", Directory::purge(p, l.tok[2][0] == '1') ? 1 : 0);
+  }
   else if(hxIs(l, "fsrmdir", 2))
   {
+    if(hitsCwd(p)) return false;
     if(!lastIsName(p) || (l.tok[2][0] != '0' && l.tok[2][0] != '1') || l.tok[2][1]) return false;
     printf("%d", Directory::unlink(p, l.tok[2][0] == '1') ? 1 : 0);
   }
@@ -347,7 +393,7 @@ static bool fsOp(HxLine& l)
     bool fie = l.tok[3][0] == '1';
     if(hxIs(l, "fsrename", 3))
     {
-      if(!lastIsName(p)) return false;
+      if(!lastIsName(p) || hitsCwd(p)) return false;
       printf("%d", File::rename(p, q, fie) ? 1 : 0);
     }
     else if(hxIs(l, "fscopy", 3)) printf("%d", File::copy(p, q, fie) ? 1 : 0);
